@@ -486,3 +486,129 @@ def _default(ip, n):
     if ty == "bool":
         return False
     raise A.Unsupported("default of %s" % ty)
+
+
+# ---- strings and chars (identifier mangling code): String = Python str held in a place, char = 1-char str ----------
+
+def decode_format_template(tpl):
+    """Decode core::fmt::Arguments' template bytes (see library/core/src/fmt/mod.rs) into
+    a list of pieces: str (literal) or ("arg", index). Only option-free placeholders are supported."""
+    out = []
+    i = 0
+    nxt = 0
+    while i < len(tpl):
+        b = tpl[i]
+        i += 1
+        if b == 0:
+            if i != len(tpl):
+                raise A.Unsupported("format template: data after terminator")
+            return out
+        if b < 0x80:
+            out.append(bytes(tpl[i:i + b]).decode("utf-8"))
+            i += b
+        elif b == 0x80:
+            ln = tpl[i] | (tpl[i + 1] << 8)
+            i += 2
+            out.append(bytes(tpl[i:i + ln]).decode("utf-8"))
+            i += ln
+        elif b & 0xC0 == 0xC0:
+            if b & 0x37:
+                raise A.Unsupported("format placeholder with flags/width/precision")
+            idx = nxt
+            if b & 0x08:
+                idx = tpl[i] | (tpl[i + 1] << 8)
+                i += 2
+            out.append(("arg", idx))
+            nxt = idx + 1
+        else:
+            raise A.Unsupported("format template byte %#x" % b)
+    raise A.Unsupported("format template without terminator")
+
+
+def _display(v):
+    v = A.deref(v)
+    if isinstance(v, bool):
+        return "true" if v else "false"
+    if isinstance(v, (str, int)):
+        return str(v)
+    raise A.Unsupported("Display of %r" % (v,))
+
+
+def string_intrinsics():
+    I = {}
+    d = A.deref
+    STR = "core::str::<impl str>::"
+    CH = "core::char::methods::<impl char>::"
+    S = "alloc::string::String::"
+
+    def set_place(ref, v):
+        if not isinstance(ref, A.Ref):
+            raise A.Unsupported("string mutation on a non-place")
+        ref.set(v)
+        return unit()
+
+    def need_str(v):
+        v = d(v)
+        if not isinstance(v, str):
+            raise A.Unsupported("string operation on %r" % (v,))
+        return v
+
+    I[S + "new"] = lambda ip, n, a: ""
+    I[S + "with_capacity"] = lambda ip, n, a: ""
+    I[S + "as_str"] = lambda ip, n, a: need_str(a[0])
+    I[S + "len"] = lambda ip, n, a: len(need_str(a[0]).encode("utf-8"))
+    I[S + "push"] = lambda ip, n, a: set_place(a[0], need_str(a[0]) + need_str(a[1]))
+    I[S + "push_str"] = lambda ip, n, a: set_place(a[0], need_str(a[0]) + need_str(a[1]))
+    I[S + "is_empty"] = lambda ip, n, a: need_str(a[0]) == ""
+    I["<alloc::string::String as core::iter::traits::collect::Extend<char>>::extend"] = \
+        lambda ip, n, a: set_place(a[0], need_str(a[0]) + "".join(need_str(x) for x in to_iter(a[1])))
+    I[STR + "len"] = lambda ip, n, a: len(need_str(a[0]).encode("utf-8"))
+    I[STR + "is_empty"] = lambda ip, n, a: need_str(a[0]) == ""
+    I[STR + "chars"] = lambda ip, n, a: IterV(list(need_str(a[0])))
+    I[STR + "to_lowercase"] = lambda ip, n, a: need_str(a[0]).lower()
+    I[STR + "to_uppercase"] = lambda ip, n, a: need_str(a[0]).upper()
+    I[STR + "to_ascii_lowercase"] = lambda ip, n, a: "".join(c.lower() if c.isascii() else c for c in need_str(a[0]))
+    I[STR + "to_ascii_uppercase"] = lambda ip, n, a: "".join(c.upper() if c.isascii() else c for c in need_str(a[0]))
+    for nm in ("to_lowercase", "to_uppercase", "to_ascii_lowercase", "to_ascii_uppercase"):
+        I["alloc::str::<impl str>::" + nm] = I[STR + nm]
+    I[STR + "starts_with"] = lambda ip, n, a: need_str(a[0]).startswith(need_str(a[1]))
+    I[STR + "ends_with"] = lambda ip, n, a: need_str(a[0]).endswith(need_str(a[1]))
+    I[STR + "strip_prefix"] = lambda ip, n, a: some(need_str(a[0])[len(need_str(a[1])):]) if need_str(a[0]).startswith(need_str(a[1])) else none()
+    I[STR + "strip_suffix"] = lambda ip, n, a: some(need_str(a[0])[:len(need_str(a[0])) - len(need_str(a[1]))]) if need_str(a[0]).endswith(need_str(a[1])) else none()
+    I[STR + "to_string"] = lambda ip, n, a: need_str(a[0])
+    I[STR + "to_owned"] = lambda ip, n, a: need_str(a[0])
+    I[CH + "is_uppercase"] = lambda ip, n, a: need_str(a[0]).isupper()
+    I[CH + "is_lowercase"] = lambda ip, n, a: need_str(a[0]).islower()
+    I[CH + "is_ascii_uppercase"] = lambda ip, n, a: need_str(a[0]).isascii() and need_str(a[0]).isupper()
+    I[CH + "is_ascii_lowercase"] = lambda ip, n, a: need_str(a[0]).isascii() and need_str(a[0]).islower()
+    I[CH + "is_alphabetic"] = lambda ip, n, a: need_str(a[0]).isalpha()
+    I[CH + "is_numeric"] = lambda ip, n, a: need_str(a[0]).isnumeric()
+    I[CH + "is_ascii_digit"] = lambda ip, n, a: need_str(a[0]) in "0123456789"
+    I[CH + "is_alphanumeric"] = lambda ip, n, a: need_str(a[0]).isalnum()
+    I[CH + "to_lowercase"] = lambda ip, n, a: IterV(list(need_str(a[0]).lower()))
+    I[CH + "to_uppercase"] = lambda ip, n, a: IterV(list(need_str(a[0]).upper()))
+    I[CH + "to_ascii_uppercase"] = lambda ip, n, a: need_str(a[0]).upper() if need_str(a[0]).isascii() else need_str(a[0])
+    I[CH + "to_ascii_lowercase"] = lambda ip, n, a: need_str(a[0]).lower() if need_str(a[0]).isascii() else need_str(a[0])
+
+    # format!(..): hint::must_use(fmt::format(Arguments::new(template, &[Argument::new_display(&x), ..])))
+    I["core::hint::must_use"] = lambda ip, n, a: a[0]
+    I["alloc::fmt::format"] = lambda ip, n, a: need_str(a[0])
+    I["core::fmt::rt::Argument::<'_>::new_display"] = lambda ip, n, a: _display(a[0])
+
+    def arguments_new(ip, n, a):
+        tpl = d(a[0])
+        args = d(a[1])
+        if not isinstance(tpl, list) or not isinstance(args, A.VecV):
+            raise A.Unsupported("fmt::Arguments::new with %r" % (tpl,))
+        out = []
+        for p in decode_format_template(tpl):
+            if isinstance(p, str):
+                out.append(p)
+            else:
+                if p[1] >= len(args.items):
+                    raise A.Unsupported("format argument index")
+                out.append(need_str(args.items[p[1]]))
+        return "".join(out)
+    I["core::fmt::Arguments::<'a>::new"] = arguments_new
+    I["core::fmt::Arguments::<'a>::from_str"] = lambda ip, n, a: need_str(a[0])
+    return I
